@@ -66,6 +66,27 @@ Theorem C02_sprint_leaf_noninterference : forall fuel env a1 a2 o1 o2,
 Proof. exact sprint_leaf_noninterference. Qed.
 Print Assumptions C02_sprint_leaf_noninterference.
 
+(* The same for operands that are TREES: slices, arrays, structs (exported and unexported fields,
+   with %+v / %#v field and type names), maps (keys shared), interface slots - nested to any
+   depth - over related leaves [vrel]; container types not declared safe. *)
+Theorem C02_sprintf_tree_noninterference : forall fuel env f a1 a2 o1 o2,
+  osane (orc env) -> no_star f = true -> Forall2 vrel a1 a2 ->
+  sprintf fuel env f a1 = ROk o1 -> sprintf fuel env f a2 = ROk o2 ->
+  forall ops1 ops2, o_log o1 = ops1 ++ [OTake] -> o_log o2 = ops2 ++ [OTake] ->
+  rawok ops1 = true -> ptail_ok_from init ops1 = true -> ptail_ok_from init ops2 = true ->
+  redact_b (o_bytes o1) = redact_b (o_bytes o2).
+Proof. exact sprintf_tree_noninterference. Qed.
+Print Assumptions C02_sprintf_tree_noninterference.
+
+Theorem C02_sprint_tree_noninterference : forall fuel env a1 a2 o1 o2,
+  osane (orc env) -> Forall2 vrel a1 a2 ->
+  sprint fuel env a1 = ROk o1 -> sprint fuel env a2 = ROk o2 ->
+  forall ops1 ops2, o_log o1 = ops1 ++ [OTake] -> o_log o2 = ops2 ++ [OTake] ->
+  rawok ops1 = true -> ptail_ok_from init ops1 = true -> ptail_ok_from init ops2 = true ->
+  redact_b (o_bytes o1) = redact_b (o_bytes o2).
+Proof. exact sprint_tree_noninterference. Qed.
+Print Assumptions C02_sprint_tree_noninterference.
+
 (* Non-vacuity: Sprintf("u=%s id=%+08d %x|%q %v!", ...) on two instantiations; the hypotheses
    hold, the outputs differ, their redactions agree *)
 Definition c02_fmt : bytes := [117;61;37;115;32;105;100;61;37;43;48;56;100;32;37;120;124;37;113;32;37;118;33]%N.
@@ -104,6 +125,45 @@ Example C02_sprintf_nonvacuous :
   match sprintf 20 (mkEnv c02_orc None) c02_fmt c02_a1, sprintf 20 (mkEnv c02_orc None) c02_fmt c02_a2 with
   | ROk o1, ROk o2 =>
     no_star c02_fmt = true /\ o_bytes o1 <> o_bytes o2 /\ redact_b (o_bytes o1) = redact_b (o_bytes o2) /\
+    rawok (removelast (o_log o1)) = true /\ ptail_ok_from init (removelast (o_log o1)) = true /\ ptail_ok_from init (removelast (o_log o2)) = true
+  | _, _ => False
+  end.
+Proof. vm_compute. repeat split; congruence. Qed.
+
+(* Non-vacuity for trees: Sprintf("%+v|%v", struct{Name string; id int; Tags []interface{}}, map[string]interface{}{"k": ...})
+   on two instantiations: the hypotheses hold, the outputs differ, the redactions agree *)
+Definition c02_ts := c02_t [115;116;114;105;110;103]%N.
+Definition c02_ti := c02_t [105;110;116]%N.
+Definition c02_tree (name : bytes) (id : Z) (tag : bytes) (x : Z) : list value :=
+  [VStruct (c02_t [109;97;105;110;46;84]%N)
+     [([78;97;109;101]%N, true, VStr c02_ts name); ([105;100]%N, false, VInt c02_ti id);
+      ([84;97;103;115]%N, true, VSlice (c02_t [91;93;105;110;116;101;114;102;97;99;101;32;123;125]%N) false
+          [VIface [105;110;116;101;114;102;97;99;101;32;123;125]%N (Some (VStr c02_ts tag));
+           VIface [105;110;116;101;114;102;97;99;101;32;123;125]%N None])];
+   VMap (c02_t [109;97;112]%N) false
+     [(VStr c02_ts [107]%N, VIface [105;110;116;101;114;102;97;99;101;32;123;125]%N (Some (VInt c02_ti x)))]].
+Definition c02_fmt2 : bytes := [37;43;118;124;37;118]%N.
+
+Lemma c02_trees_related : Forall2 vrel (c02_tree [97;98]%N 42 [120;10;121]%N 5) (c02_tree [99;100]%N 4711 [122;10;122]%N 77).
+Proof.
+  unfold c02_tree. constructor; [|constructor; [|constructor]].
+  - apply vr_struct; [reflexivity | reflexivity|].
+    constructor; [split; [reflexivity|]; apply vr_leaf; c02_lrel; split; [reflexivity | c02_srel]|].
+    constructor; [split; [reflexivity|]; apply vr_leaf; c02_lrel; split; [reflexivity|]; unfold irel, Fmt.two64; lia|].
+    constructor; [|constructor]. split; [reflexivity|].
+    apply vr_slice; [reflexivity | reflexivity|].
+    constructor; [apply vr_iface, vr_leaf; c02_lrel; split; [reflexivity | c02_srel]|].
+    constructor; [apply vr_iface_nil | constructor].
+  - apply vr_map; [reflexivity | reflexivity|].
+    constructor; [|constructor]. split; [reflexivity|]. split; [reflexivity|].
+    apply vr_iface, vr_leaf. c02_lrel. split; [reflexivity|]. unfold irel, Fmt.two64. lia.
+Qed.
+
+Example C02_tree_nonvacuous :
+  match sprintf 20 (mkEnv c02_orc None) c02_fmt2 (c02_tree [97;98]%N 42 [120;10;121]%N 5),
+        sprintf 20 (mkEnv c02_orc None) c02_fmt2 (c02_tree [99;100]%N 4711 [122;10;122]%N 77) with
+  | ROk o1, ROk o2 =>
+    no_star c02_fmt2 = true /\ o_bytes o1 <> o_bytes o2 /\ redact_b (o_bytes o1) = redact_b (o_bytes o2) /\
     rawok (removelast (o_log o1)) = true /\ ptail_ok_from init (removelast (o_log o1)) = true /\ ptail_ok_from init (removelast (o_log o2)) = true
   | _, _ => False
   end.
